@@ -65,14 +65,14 @@ pub fn check_bytes(b: &[u8], all_type_codes: bool) -> Check {
     if let Ok(msgs) = msgs {
         for m in msgs {
             if let MessageContents::DigitalRadarData(d) = m.contents() {
-                observe("Message::radial", n, || d.radial().map(|_| ()))?;
+                let _ = observe("Message::radial", n, || d.radial().map(|_| ()))?;
             }
             if let MessageContents::DigitalRadarData(d) = m.into_contents() {
-                observe("Message::into_radial", n, || d.into_radial().map(|_| ()))?;
+                let _ = observe("Message::into_radial", n, || d.into_radial().map(|_| ()))?;
             }
         }
     }
-    observe("decode_message_header", n, || decode_message_header(&mut &b[..]).map(|_| ()))?;
+    let _ = observe("decode_message_header", n, || decode_message_header(&mut &b[..]).map(|_| ()))?;
     // contents of any type
     let core = [
         MessageType::RDADigitalRadarDataGenericFormat,
@@ -84,22 +84,22 @@ pub fn check_bytes(b: &[u8], all_type_codes: bool) -> Check {
         MessageType::Unknown(255),
     ];
     for t in core {
-        observe("decode_message_contents", n, || decode_message_contents(&mut Cursor::new(b), t).map(|_| ()))?;
+        let _ = observe("decode_message_contents", n, || decode_message_contents(&mut Cursor::new(b), t).map(|_| ()))?;
     }
     if all_type_codes {
         for t in all_types() {
-            observe("decode_message_contents", n, || decode_message_contents(&mut Cursor::new(b), t).map(|_| ()))?;
+            let _ = observe("decode_message_contents", n, || decode_message_contents(&mut Cursor::new(b), t).map(|_| ()))?;
         }
     }
     // type 31 directly, then both radial conversions
     let d = observe("decode_digital_radar_data", n, || decode_digital_radar_data(&mut Cursor::new(b)))?;
     if let Ok(d) = d {
-        observe("Message::radial", n, || d.radial().map(|_| ()))?;
-        observe("Message::into_radial", n, || d.into_radial().map(|_| ()))?;
+        let _ = observe("Message::radial", n, || d.radial().map(|_| ()))?;
+        let _ = observe("Message::into_radial", n, || d.into_radial().map(|_| ()))?;
     }
-    observe("decode_rda_status_message", n, || decode_rda_status_message(&mut &b[..]).map(|_| ()))?;
-    observe("decode_volume_coverage_pattern", n, || decode_volume_coverage_pattern(&mut &b[..]).map(|_| ()))?;
-    observe("decode_clutter_filter_map", n, || decode_clutter_filter_map(&mut &b[..]).map(|_| ()))?;
+    let _ = observe("decode_rda_status_message", n, || decode_rda_status_message(&mut &b[..]).map(|_| ()))?;
+    let _ = observe("decode_volume_coverage_pattern", n, || decode_volume_coverage_pattern(&mut &b[..]).map(|_| ()))?;
+    let _ = observe("decode_clutter_filter_map", n, || decode_clutter_filter_map(&mut &b[..]).map(|_| ()))?;
     Ok(())
 }
 
